@@ -157,3 +157,41 @@ def maybe_view(rng, a, p=0.3, kinds=None):
     if isinstance(a, np.ndarray) and a.ndim == 1 and a.size and rng.random() < p:
         return as_view(rng, a, kinds)[0]
     return a
+
+
+# --- big arrays ----------------------------------------------------------------
+# Blocked evaluation (to bound memory, to poll for signals, to read a file in pieces) only exists above some size, and its
+# mistakes sit at block boundaries: a tail shorter than a block, a length that is an exact multiple of the block, the
+# first element after a boundary.  BIG_SIZES are lengths just past powers of two and round decimal numbers up to a few
+# million, and exact multiples of both; windows() picks the places to look at.
+
+BIG_SIZES = [2 ** 20 + 37, 2 ** 21 + 1, 2 ** 22 + 5, 2 ** 22 + 2 ** 20, 10 ** 6, 5 * 10 ** 5, 15 * 10 ** 5, 2 * 10 ** 6 + 1, 25 * 10 ** 5 + 1, 5 * 10 ** 6 + 3]
+
+
+def big_size(rng, cap=None, first=False):
+    """a length from BIG_SIZES not above cap; first=True: the largest one (every run reaches the top of its range)"""
+    s = [x for x in BIG_SIZES if cap is None or x <= cap]
+    return int(max(s)) if first else int(s[int(rng.integers(0, len(s)))])
+
+
+def windows(rng, n, width=64, extra=12):
+    """index windows (start, stop) of a length-n array: head, tail, around every multiple of 2^16 .. 2^22 and of
+    100000 that a blocked loop might use as boundary (a sample of them), and a few random places"""
+    marks = {0, n}
+    for k in range(16, 23):
+        b = 2 ** k
+        ms = list(range(b, n, b))
+        for m in (ms if len(ms) <= 6 else [ms[0], ms[-1]] + [ms[int(i)] for i in rng.integers(0, len(ms), size=4)]):
+            marks.add(m)
+    for b in (10 ** 5, 5 * 10 ** 5, 10 ** 6):
+        ms = list(range(b, n, b))
+        for m in (ms if len(ms) <= 4 else [ms[0], ms[-1]] + [ms[int(i)] for i in rng.integers(0, len(ms), size=2)]):
+            marks.add(m)
+    for m in rng.integers(0, n, size=extra):
+        marks.add(int(m))
+    out = []
+    for m in sorted(marks):
+        a, b = max(0, m - width // 2), min(n, m + width // 2)
+        if b > a:
+            out.append((a, b))
+    return out
